@@ -15,9 +15,32 @@ namespace GM.Blocks
 open GM GM.Text GM.Spec GM.Proof.Reader
 open GM.Proof.BlocksWF0 (isRaw)
 
-/-- a block that is not raw has increasing lines that end at or before `B` -/
+/-- the kinds whose nodes never carry lines: Document, Blockquote, List, ListItem, ThematicBreak -/
+def noLinesKind : Kind → Bool
+  | .document | .blockquote | .list | .listItem | .thematicBreak => true
+  | _ => false
+
+theorem noLinesKind_of_raw {k : Kind} (h : isRaw k = true) : noLinesKind k = false := by
+  cases k <;> first | rfl | exact absurd h (by decide)
+
+/-- a block that is not raw has increasing lines that end at or before `B` (of non-empty segments); a raw block has
+    increasing lines that end at or before `B`; a container or thematic break has no lines -/
 def NodeB (B : Int) (n : Node) : Prop :=
-  isRaw n.kind = false → OrdFrom 0 n.lines ∧ Below B n.lines ∧ ∀ t ∈ n.lines, t.start < t.stop ∧ t.forceNewline = false
+  (isRaw n.kind = false →
+    OrdFrom 0 n.lines ∧ Below B n.lines ∧ ∀ t ∈ n.lines, t.start < t.stop ∧ t.forceNewline = false) ∧
+  (isRaw n.kind = true → OrdFrom 0 n.lines ∧ Below B n.lines) ∧
+  (noLinesKind n.kind = true → n.lines = [])
+
+theorem NodeB.congr {B : Int} {n n' : Node} (hk : n'.kind = n.kind) (hl : n'.lines = n.lines) (h : NodeB B n) :
+    NodeB B n' := by
+  unfold NodeB at *
+  rw [hk, hl]; exact h
+
+theorem NodeB.nil (B : Int) {n : Node} (h : n.lines = []) : NodeB B n := by
+  unfold NodeB
+  rw [h]
+  exact ⟨fun _ => ⟨trivial, Below.nil B, fun t ht => by cases ht⟩, fun _ => ⟨trivial, Below.nil B⟩, fun _ => rfl⟩
+
 
 structure Inv (src : Bytes) (B : Int) (s : St) : Prop where
   nrb : ∀ i, NodeB B (nd s i)
@@ -28,7 +51,8 @@ structure Inv (src : Bytes) (B : Int) (s : St) : Prop where
   nodes : NodesOK src s
 
 theorem NodeB.mono {B B' : Int} (h : B ≤ B') {n : Node} (hn : NodeB B n) : NodeB B' n :=
-  fun hr => ⟨(hn hr).1, (hn hr).2.1.mono h, (hn hr).2.2⟩
+  ⟨fun hr => ⟨(hn.1 hr).1, (hn.1 hr).2.1.mono h, (hn.1 hr).2.2⟩, fun hr => ⟨(hn.2.1 hr).1, (hn.2.1 hr).2.mono h⟩,
+    hn.2.2⟩
 
 theorem Inv.mono {src : Bytes} {B B' : Int} {s : St} (h : B ≤ B') (hi : Inv src B s) : Inv src B' s :=
   ⟨fun i => (hi.nrb i).mono h, hi.pne, hi.pnb, hi.tmpk, hi.kinds, hi.nodes⟩
@@ -52,8 +76,8 @@ theorem Inv.congr_pc {src : Bytes} {B : Int} {s : St} (hi : Inv src B s) (pc' : 
 
 /-- a step that keeps lines, nil flags and kinds of all nodes, the reader and the context -/
 theorem Inv.lk {src : Bytes} {B : Int} {s s' : St} (hi : Inv src B s) (h : LK s s') : Inv src B s' := by
-  refine ⟨fun i hr => ?_, fun i hk => ?_, fun i hk => ?_, fun t ht => ?_, fun b hb => ?_, fun n hn => ?_⟩
-  · rw [(h.same i).2.2] at hr; rw [(h.same i).1]; exact hi.nrb i hr
+  refine ⟨fun i => ?_, fun i hk => ?_, fun i hk => ?_, fun t ht => ?_, fun b hb => ?_, fun n hn => ?_⟩
+  · exact (hi.nrb i).congr (h.same i).2.2 (h.same i).1
   · rw [(h.same i).2.2] at hk; rw [(h.same i).1]; exact hi.pne i hk
   · rw [(h.same i).2.2] at hk; rw [(h.same i).1]; exact hi.pnb i hk
   · rw [h.pc] at ht; rw [(h.same t).2.2]; exact hi.tmpk t ht
@@ -76,12 +100,16 @@ structure LinesAt (X : Nat) (ls : List Segment) (s s' : St) : Prop where
 theorem Inv.linesAt {src : Bytes} {B : Int} {s s' : St} {X : Nat} {ls : List Segment} (hi : Inv src B s)
     (h : LinesAt X ls s s')
     (hb : isRaw (nd s X).kind = false → OrdFrom 0 ls ∧ Below B ls ∧ ∀ t ∈ ls, t.start < t.stop ∧ t.forceNewline = false)
-    (hp : (nd s X).kind = .paragraph → ls ≠ [] ∧ ∀ t ∈ ls, NonBlankSeg src t) (hok : LinesOK src ls) : Inv src B s' := by
-  refine ⟨fun i hr => ?_, fun i hk => ?_, fun i hk => ?_, fun t ht => ?_, fun b hbm => ?_, fun n hn => ?_⟩
-  · rw [h.kind i] at hr
-    by_cases hx : i = X
-    · subst hx; rw [h.lines]; exact hb hr
-    · rw [(h.other i hx).1]; exact hi.nrb i hr
+    (hp : (nd s X).kind = .paragraph → ls ≠ [] ∧ ∀ t ∈ ls, NonBlankSeg src t) (hok : LinesOK src ls)
+    (hrw : isRaw (nd s X).kind = true → OrdFrom 0 ls ∧ Below B ls)
+    (hnl : noLinesKind (nd s X).kind = true → ls = []) : Inv src B s' := by
+  refine ⟨fun i => ?_, fun i hk => ?_, fun i hk => ?_, fun t ht => ?_, fun b hbm => ?_, fun n hn => ?_⟩
+  · by_cases hx : i = X
+    · subst hx
+      unfold NodeB
+      rw [h.kind i, h.lines]
+      exact ⟨hb, hrw, hnl⟩
+    · exact (hi.nrb i).congr (h.kind i) (h.other i hx).1
   · rw [h.kind i] at hk
     by_cases hx : i = X
     · subst hx; rw [h.lines]; exact (hp hk).1
@@ -140,7 +168,7 @@ theorem paragraphClose_inv {src : Bytes} {B : Int} {s s' : St} {node : Nat} (hi 
   have hl : LinesOK src (nd s node).lines := (nodeOK_nd hi.nodes node).lines
   obtain ⟨hr, hpc, ls, hok, hsh, hpf, hnbl, hn⟩ := (paragraphClose_lines node hsrc hl hne).of_ok e
   have hall := hnbl (hi.pnb node hk)
-  have hnb := hi.nrb node (by rw [hk]; rfl)
+  have hnb := (hi.nrb node).1 (by rw [hk]; rfl)
   have hs' : s' = { s with nodes := s.nodes.set node { (nd s node) with lines := ls } } := by
     cases s'; simp only at hr hpc hn; subst hr hpc hn; rfl
   have hlen := hsh.length
@@ -149,7 +177,8 @@ theorem paragraphClose_inv {src : Bytes} {B : Int} {s s' : St} {node : Nat} (hi 
   have hla := linesAt_upd s node ls hlt (fun hn0 => absurd ((nodeOK_nd hi.nodes node).nil hn0) hne)
   rw [← hs'] at hla
   exact ⟨hi.linesAt hla (fun _ => ⟨OrdFrom.shrinks hsh hnb.1, Below.shrinks hsh hnb.2.1,
-      fun t ht => ⟨(hall t ht).2, (hpf t ht).2⟩⟩) (fun _ => ⟨hlsne, fun t ht => (hall t ht).1⟩) hok, hr, hpc, hla.kg⟩
+      fun t ht => ⟨(hall t ht).2, (hpf t ht).2⟩⟩) (fun _ => ⟨hlsne, fun t ht => (hall t ht).1⟩) hok
+      (fun hr => by rw [hk] at hr; cases hr) (fun hr => by rw [hk] at hr; cases hr), hr, hpc, hla.kg⟩
 
 theorem codeClose_inv {src : Bytes} {B : Int} {s s' : St} {node : Nat} (hi : Inv src B s)
     (hk : (nd s node).kind = .codeBlock) (hlt : node < s.nodes.length)
@@ -172,8 +201,11 @@ theorem codeClose_inv {src : Bytes} {B : Int} {s s' : St} {node : Nat} (hi : Inv
   have hok := (nodeOK_nd hi.nodes node)
   have hla := linesAt_upd s node ((nd s node).lines.take (len + 1).toNat) hlt (fun hn0 => by rw [hok.nil hn0]; simp)
   rw [← hs'] at hla
+  have hrawn := (hi.nrb node).2.1 (by rw [hk]; rfl)
   exact ⟨hi.linesAt hla (fun hr => by rw [hk] at hr; cases hr) (fun hp => by rw [hk] at hp; cases hp)
-    (fun t ht => hok.lines t (List.mem_of_mem_take ht)), by rw [hs'], by rw [hs'], hla.kg⟩
+    (fun t ht => hok.lines t (List.mem_of_mem_take ht))
+    (fun _ => ⟨OrdFrom.take _ hrawn.1, fun t ht => hrawn.2 t (List.mem_of_mem_take ht)⟩)
+    (fun hr => by rw [hk] at hr; cases hr), by rw [hs'], by rw [hs'], hla.kg⟩
 
 theorem fencedClose_inv {src : Bytes} {B : Int} {s s' : St} {node : Nat} (hi : Inv src B s)
     (e : fencedClose node s = .ok ((), s')) : Inv src B s' ∧ s'.r = s.r ∧ s'.pc.opened = s.pc.opened ∧ KG s s' := by
@@ -197,14 +229,17 @@ theorem fencedClose_inv {src : Bytes} {B : Int} {s s' : St} {node : Nat} (hi : I
 theorem listClose_inv {src : Bytes} {B : Int} {s s' : St} {node : Nat} (hi : Inv src B s)
     (e : listClose node s = .ok ((), s')) : Inv src B s' ∧ s'.r = s.r ∧ s'.pc = s.pc ∧ KG s s' := by
   have hc := listClose_copies e
-  refine ⟨⟨fun i hr => ?_, fun i hk => ?_, fun i hk => ?_, fun t ht => ?_, fun b hb => ?_, fun n hn => ?_⟩, hc.r, hc.pc, hc.kg⟩
+  refine ⟨⟨fun i => ?_, fun i hk => ?_, fun i hk => ?_, fun t ht => ?_, fun b hb => ?_, fun n hn => ?_⟩, hc.r, hc.pc, hc.kg⟩
   · rcases Nat.lt_or_ge i s.nodes.length with h | h
     · obtain ⟨x1, _, x3⟩ := hc.old i h
-      rw [x3] at hr; rw [x1]; exact hi.nrb i hr
+      exact (hi.nrb i).congr x3 x1
     · rcases Nat.lt_or_ge i s'.nodes.length with h' | h'
-      · obtain ⟨_, j, hj, hjk, hl, _⟩ := hc.new i h h'
-        rw [hl]; exact hi.nrb j (by rw [hjk]; rfl)
-      · rw [nd_default_of_ge s' h']; exact ⟨trivial, Below.nil B, fun t ht => by cases ht⟩
+      · obtain ⟨hkn, j, hj, hjk, hl, _⟩ := hc.new i h h'
+        unfold NodeB
+        rw [hl]
+        exact ⟨fun _ => (hi.nrb j).1 (by rw [hjk]; rfl), (fun hr => by rw [hkn] at hr; cases hr),
+          (fun hr => by rw [hkn] at hr; cases hr)⟩
+      · rw [nd_default_of_ge s' h']; exact NodeB.nil B rfl
   · rcases Nat.lt_or_ge i s.nodes.length with h | h
     · obtain ⟨x1, _, x3⟩ := hc.old i h
       rw [x3] at hk; rw [x1]; exact hi.pne i hk
@@ -269,8 +304,9 @@ theorem setextClose_inv {src : Bytes} {B : Int} {s s' : St} {node : Nat} (hi : I
     have hla : LinesAt node (nd s t).lines s s' :=
       ⟨hlen, hkind, hoth, hl, fun hn0 => (nodeOK_nd hi.nodes t).nil (by rw [← hln]; exact hn0), hr,
         (fun t' ht' => by rw [hpc] at ht'; cases ht'), (by rw [hpc])⟩
-    exact ⟨hi.linesAt hla (fun _ => hi.nrb t (by rw [hkt]; rfl)) (fun hp => by rw [hk] at hp; cases hp)
-        (nodeOK_nd hi.nodes t).lines, hr, by rw [hpc], hla.kg⟩
+    exact ⟨hi.linesAt hla (fun _ => (hi.nrb t).1 (by rw [hkt]; rfl)) (fun hp => by rw [hk] at hp; cases hp)
+        (nodeOK_nd hi.nodes t).lines (fun hr => by rw [hk] at hr; cases hr) (fun hr => by rw [hk] at hr; cases hr),
+        hr, by rw [hpc], hla.kg⟩
 
 /-- **every `Close` keeps the invariant** (for every bound `B`), does not move the reader and does not touch the
     open-block stack — for a block whose node has the kind its parser builds -/
